@@ -71,6 +71,8 @@ AlignEv == /\ IsEv("align")
                 /\ AlignOK(e.tin, e.nstate, e.result, 1, 1, 0)
                 /\ e.F = Sum(e.result)                  \* the synthesized length is fperiod x total frames
                 /\ e.rem = 0
+                \* ... whichever form the annotated lines are handed over in (slice, Vec<String>, reference to an array)
+                /\ \A i \in 1..Len(e.form_lens) : e.form_lens[i] = e.F * e.fperiod
            /\ UNCHANGED <<n, mq, base, prevTotal>>
 
 \* C17: time stamps in label strings are in 100 ns units: Labels::load_from_strings(rate, fperiod, ..).times() rounded to frames
